@@ -127,13 +127,23 @@ func svPathPos(kind string) []int {
 
 // ---- permission of the acting user on the directories leading to the view's root -------------
 func svCanSearch(base avfs.VFS, u avfs.UserReader, dir string) bool {
-	if u.IsAdmin() || dir == "/" {
+	if u.IsAdmin() {
 		return true
 	}
-	parts := strings.Split(strings.TrimPrefix(dir, "/"), "/")
+	// "/" itself, then every directory down to the view's root
+	parts := []string{""}
+	if dir != "/" {
+		parts = strings.Split(dir, "/")
+	}
 	p := ""
-	for _, c := range parts {
-		p += "/" + c
+	for k, c := range parts {
+		if k == 0 {
+			p = "/"
+		} else if p == "/" {
+			p += c
+		} else {
+			p += "/" + c
+		}
 		info, err := base.Lstat(p)
 		if err != nil {
 			return false
